@@ -3,6 +3,7 @@ import MoneroModel.Proofs.GroupInstance
 import MoneroModel.Model.SubAddr
 import MoneroModel.Proofs.Address
 import MoneroModel.Proofs.Base58Imp
+import MoneroModel.Proofs.EdwardsLawful
 /-! C11 — "Subaddress keys follow Monero's derivation on both the secret and public side".
 About the model of src/cryptonote/subaddress.rs (`Monero.subScalar`, `subSpendPub`, `subPublicKeys`, `subSpendSec`,
 `subViewSec` in Model/Crypto.lean; `getSubaddress` in Model/SubAddr.lean) and the by-the-book definitions in
@@ -188,4 +189,25 @@ theorem C11_address (L : Lawful ops) (H : Bytes → Bytes) (v : ℕ) (S : P) (i 
     · rw [hspend, h.1]
     · show ops.enc (subPublicKeys ops v S i j).1 = _; rw [h.2.1]
   · rw [Address.toStr, B58.encode_eq, Address.asBytes_eq_blob H _ (fun _ => rfl), hspend]; rfl
+
+/-! ### Ed25519 itself: `Lawful` is a theorem, not an assumption
+
+`Proofs/EdwardsGroup.lean` proves that the affine twisted Edwards curve −x² + y² = 1 + d·x²·y² over GF(2^255 − 19) with the
+complete addition law is an abelian group (d is a non-square, −1 a square; associativity by explicit polynomial
+certificates); `Proofs/EdwardsRef*.lean` that the executable reference arithmetic `Ref/Ed25519.lean` (extended coordinates,
+double-and-add, RFC 8032 compression) computes in that group; `Proofs/EdwardsLawful.lean` that the resulting primitives
+record `edOps` (points = curve points, `l·G = 0`, injective encoding accepted by `dec`) is `Lawful`, and that the instance
+the compiled driver runs (`Drv.refOps`) refines it operation by operation. The theorems below are the theorems of this
+file with that instance plugged in: no hypothesis about the group is left. (That curve25519-dalek computes the same
+functions as `Ref/Ed25519.lean` remains a differential tie — dalek is a dependency.) -/
+section Ed25519
+open Monero.Edw
+
+theorem C11_ed25519_lawful : Lawful edOps ∧ RefinesEd Drv.refOps := ⟨edOps_lawful, refOps_refines_edOps⟩
+theorem C11_keys_are_monero_ed25519 : type_of% (@C11_keys_are_monero EdPoint _ edOps edOps_lawful) := C11_keys_are_monero edOps_lawful
+theorem C11_public_secret_agree_ed25519 : type_of% (@C11_public_secret_agree EdPoint _ edOps edOps_lawful) :=
+  C11_public_secret_agree edOps_lawful
+theorem C11_zero_index_ed25519 : type_of% (@C11_zero_index EdPoint _ edOps edOps_lawful) := C11_zero_index edOps_lawful
+theorem C11_address_ed25519 : type_of% (@C11_address EdPoint _ edOps edOps_lawful) := C11_address edOps_lawful
+end Ed25519
 end C11
